@@ -180,7 +180,7 @@ func genHostileExpr(t *rapid.T, depth int) (interface{}, string) {
 }
 
 func genChainOp(t *rapid.T, healthyPossible bool) chainOp {
-	switch rapid.IntRange(0, 22).Draw(t, "op") {
+	switch rapid.IntRange(0, 23).Draw(t, "op") {
 	case 0, 1, 2:
 		cl, d := genHostileFilterClause(t, 2)
 		return chainOp{desc: d, run: func(qf qframe.QFrame) qframe.QFrame { return qf.Filter(cl) }}
@@ -403,6 +403,33 @@ func genChainOp(t *rapid.T, healthyPossible bool) chainOp {
 		o := ops[k]
 		o.mustErr = true
 		return o
+	case 22:
+		// an invalid leaf anywhere in an Or (also before/between composite sub-clauses) must surface as Err
+		k := rapid.IntRange(0, 4).Draw(t, "orprobe")
+		bad := qframe.Filter{Column: "never-created-col", Comparator: "=", Arg: 1}
+		ok1 := qframe.And(qframe.Filter{Column: "ti", Comparator: ">=", Arg: 0})
+		ok2 := qframe.Not(qframe.Filter{Column: "ti", Comparator: "<", Arg: 0})
+		okLeaf := qframe.Filter{Column: "ti", Comparator: "=", Arg: 1}
+		var clause qframe.FilterClause
+		switch k {
+		case 0:
+			clause = qframe.Or(bad, ok1)
+		case 1:
+			clause = qframe.Or(ok1, bad, ok2)
+		case 2:
+			clause = qframe.Or(okLeaf, bad, ok1, okLeaf)
+		case 3:
+			clause = qframe.And(okLeaf, qframe.Or(bad, ok2))
+		default:
+			clause = qframe.Not(qframe.Or(qframe.Or(bad, ok1), okLeaf))
+		}
+		return chainOp{desc: fmt.Sprintf("Or(invalid leaf, composite) probe %d", k), mustErr: true, run: func(qf qframe.QFrame) qframe.QFrame {
+			tq := qf.Apply(qframe.Instruction{Fn: 1, DstCol: "ti"})
+			if tq.Err != nil {
+				return tq
+			}
+			return tq.Filter(clause)
+		}}
 	case 21:
 		// the sub-clauses of And form a chain of their own: after the first one failed none of
 		// the later ones may run a callback, and the first error is the one reported
